@@ -1509,8 +1509,8 @@ let exotic_case (input : string) (obs0 : string) : verdict =
   let obs, flags = split_flags_all obs0 in
   let oracle = ref [] in
   (* entries from index 19 on use an Unfolder that was given (and refused) another target before *)
-  let reused = (match words input with i :: _ -> (try int_of_string i >= 19 with _ -> false) | [] -> false) in
-  (if obs = "PANIC" || obs = "HANG" then oracle := ("C14", "unfolder crashed or hung on a hand-written target type: " ^ obs) :: !oracle);
+  let reused = (match words input with i :: _ -> (try let i = int_of_string i in i >= 19 && i <= 21 with _ -> false) | [] -> false) in
+  (if obs = "PANIC" || obs = "HANG" then oracle := ("C14", "unfolder crashed or hung on a hand-written target type: " ^ obs) :: ("C20", "unfolder (key cache on in half of the cases) crashed or hung on a hand-written target type: " ^ obs) :: !oracle);
   (if starts_with obs "CORRUPT" then oracle := ("C14", "an interface slot of the target holds a value that does not implement it (unsafe write): " ^ obs) :: !oracle);
   (match List.filter (fun x -> starts_with x "TWIN ") flags with
    | x :: _ ->
@@ -1518,17 +1518,35 @@ let exotic_case (input : string) (obs0 : string) : verdict =
          oracle := ("C14", "an Unfolder that refused a target before treats the next target differently from a new Unfolder: " ^ obs ^ " vs " ^ x) :: !oracle;
          oracle := ("C17", "an Unfolder that refused a target before treats the next target differently from a new Unfolder: " ^ obs ^ " vs " ^ x) :: !oracle
        end;
-       oracle := ("C13", "named target type unfolds differently from its plain twin: " ^ obs ^ " vs " ^ x) :: !oracle
+       oracle := ("C13", "named target type unfolds differently from its plain twin: " ^ obs ^ " vs " ^ x) :: !oracle;
+       (* the hand-written target is unfolded with the key cache on in half of the cases, its twin never *)
+       oracle := ("C20", "hand-written target (key cache on in half of the cases) unfolds differently from its twin without cache: " ^ obs ^ " vs " ^ x) :: !oracle
    | [] -> ());
   { model = obs; oracle = !oracle }
 
 (* ---- C12 / C17: custom folders, Folder, IsZeroer (no model: the expectation is written down by hand
    from the documented mapping on the Go side; compared here as values) ---- *)
-let userfold_case (_input : string) (obs0 : string) : verdict =
+let userfold_case (input : string) (obs0 : string) : verdict =
   let obs, flags = split_flags_all obs0 in
   let oracle = ref [] in
-  let bad why = oracle := ("C12", why) :: ("C17", why) :: !oracle in
+  let nested = List.exists (fun w -> starts_with w "46:") (words input) in
+  let bad why = oracle := ("C12", why) :: ("C17", why) :: (if nested then [ ("C10", "after a nested Fold on the visitor a Folder was handed: " ^ why) ] else []) @ !oracle in
+  (* mode x | p, optionally followed by f<k>: the visitor fails at the k-th event of the last item *)
+  let fail_k = match words input with
+    | m :: _ -> (match String.index_opt m 'f' with Some i -> (try Some (int_of_string (String.sub m (i + 1) (String.length m - i - 1))) with _ -> None) | None -> None)
+    | [] -> None in
   (match words obs with
+   | "EV" :: rest when fail_k <> None && (match rest with _ -> let _, r = split_at "R" rest in (match r with v :: _ -> v <> "ok" | [] -> true)) ->
+       (* the visitor's failure was reached: its error must come back unchanged, nothing after it *)
+       let k = match fail_k with Some k -> k | None -> 0 in
+       let toks, rest' = split_at "R" rest in
+       let verdict = match rest' with v :: _ -> v | [] -> "?" in
+       let n = List.length (events_of_toks toks) in
+       if verdict = "PANIC" || verdict = "HANG" then bad ("folding a value with a custom folder crashed or hung: " ^ verdict)
+       else begin
+         if n > k + 1 then oracle := ("C16", "Fold delivered events of a value with a custom folder after the visitor failed") :: !oracle;
+         if verdict <> "inj" then oracle := ("C16", "Fold of a value with a custom folder did not return the visitor's error unchanged: " ^ verdict) :: !oracle
+       end
    | "EV" :: rest ->
        let toks, rest' = split_at "R" rest in
        let verdict = match rest' with v :: _ -> v | [] -> "?" in
@@ -1562,11 +1580,13 @@ let userunf_case (input : string) (obs0 : string) : verdict =
       @ (if c = 12 || c = 13 then [ ("C10", "strings or keys delivered by reference to a user unfolder do not have the effect of the basic events: " ^ obs) ] else [])
       @ (if c >= 14 && c <= 17 then [ ("C17", "an Unfolder used again does not build what a new one builds (user unfolders): " ^ obs) ] else []) in
   { model = obs; oracle }
-let wafter_case (_f : fmt) (_input : string) (obs0 : string) : verdict =
+let wafter_case (f : fmt) (_input : string) (obs0 : string) : verdict =
   let obs, _ = split_flags_all obs0 in
+  let own = match f.fname with "json" -> "C04" | "cbor" -> "C05" | _ -> "C06" in
   let oracle = if obs = "A ok" then [] else
       [ ("C16", "after a failed Write the parser went on with the broken document: " ^ obs);
-        ("C03", "after a failed Write the parser went on with the broken document: " ^ obs) ] in
+        ("C03", "after a failed Write the parser went on with the broken document: " ^ obs) ]
+      @ (if contains obs "HANG" || contains obs "PANIC" then [ (own, "a parser that had refused a document hung or crashed on the next call: " ^ obs) ] else []) in
   { model = obs; oracle }
 let deep_case (_f : fmt) (_input : string) (obs0 : string) : verdict =
   let obs, _ = split_flags_all obs0 in
